@@ -55,10 +55,10 @@ def check(prog, ctx):
     ctx.rule('C11.e', 'Brent keeps the best point: (x,fx) is overwritten only by (u, F(u)) on a path where fu <= fx; the returned point is x; '
              'the bracketing step keeps fb <= fa on every path, returns only brackets (fb <= fa, fb <= fc) and every stored value is the function at its abscissa', 5)
     ctx.rule('C11.f', 'Find_Maximum(f) is Find_Minimum(-f) with the same bracket and tolerance', 1)
-    bracket(prog, ctx)
-    brent(prog, ctx)
-    maximum(prog, ctx)
-    nelder_mead(prog, ctx)
+    ctx.sub('bracket', bracket, prog, ctx)
+    ctx.sub('brent', brent, prog, ctx)
+    ctx.sub('maximum', maximum, prog, ctx)
+    ctx.sub('nelder_mead', nelder_mead, prog, ctx)
 
 
 def bracket(prog, ctx):
